@@ -239,6 +239,9 @@ func short(b []byte) string {
 }
 
 // buildInstance runs the node's DKG for n members and checks the DKG-level statements.
+// forceIDs, when set, makes buildInstance use these member ids instead of the generated ones.
+var forceIDs []*big.Int
+
 func buildInstance(t *rapid.T, n int) *instance {
 	in := &instance{n: n}
 	in.k = model.Param.GetGroupK(n)
@@ -249,6 +252,9 @@ func buildInstance(t *rapid.T, n int) *instance {
 	// that they do not all draw the same id style / message kind sequence
 	_ = rapid.SliceOfN(rapid.Byte(), 3*n, 3*n).Draw(t, "decorrelate")
 	in.idVals, in.style = genIDs(t, n)
+	if forceIDs != nil { // a second group with the same members
+		in.idVals = forceIDs
+	}
 	in.zeroIdx = -1
 	for i, v := range in.idVals {
 		id := mkID(v)
